@@ -351,6 +351,28 @@ def runOp (p : Prog) (dyn : Dyn) (st : St) (j : Json) : Dyn × St × Json :=
           | .ok v => Json.arr #["ok", jsonOfV v]
           | .error err => Json.arr #["err", jsonOfErr err]
         (dyn, { st' with events := [] }, Json.mkObj (("r", rj) :: jsonOfEvents st'.events))
+    | "set_get" =>
+      -- `new = option.set(o, v); option.evaluate(new)`
+      let env := mkEnv p dyn false false Option.none
+      let e := buildExpr p (natOf j "n")
+      let o := valOf j "o"
+      let m : M V := do
+        match e with
+        | .option _ key _ _ =>
+          match setPath (splitKey key) (valOf j "v") [] with
+          | some sub => do
+            let new := mix o (.dict sub)
+            let r ← ev env FUEL .evaluate e new
+            pure (.list [new, r])
+          | Option.none => raise (errOther "TypeError")
+        | _ => raise (errOther "TypeError")
+      match m { st with events := [] } with
+      | Option.none => (dyn, st, Json.mkObj [("r", Json.arr #["fuel"])])
+      | some (r, st') =>
+        let rj := match r with
+          | .ok v => Json.arr #["ok", jsonOfV v]
+          | .error err => Json.arr #["err", jsonOfErr err]
+        (dyn, { st' with events := [] }, Json.mkObj (("r", rj) :: jsonOfEvents st'.events))
     | "register" =>
       let k := natOf j "ov"
       match dyn.ov.find? (fun q => q.1 == k) with
